@@ -72,13 +72,23 @@ def attr_value(name, v):
     return str(v)
 
 
-def attrs_xml(at, extra=()):
+MICRO_TAGS = ("g", "rect", "line", "polygon", "polyline")
+
+
+def attrs_xml(at, extra=(), micro=1):
     parts = list(extra)
     style = []
     for name, v, via in at:
         if name == "fillref":      # bookkeeping of the abstract document, not an SVG attribute
             continue
-        s = attr_value(name, v)
+        if micro != 1 and name in ("stroke-width", "stroke-dashoffset"):
+            s = num(v / micro)
+        elif micro != 1 and name == "stroke-dasharray":
+            s = ",".join(num(x / micro) for x in v) if v else "none"
+        elif micro != 1 and name in ("transform", "clip-path"):
+            raise ValueError("micro documents carry no inner transforms or clips")
+        else:
+            s = attr_value(name, v)
         if via:
             style.append("%s:%s" % (name, s))
         else:
@@ -89,8 +99,15 @@ def attrs_xml(at, extra=()):
     return "".join(' %s="%s"' % (n, x) for n, x in parts)
 
 
-def geom_attrs(nd):
+def geom_attrs(nd, micro=1):
     t, g = nd["tag"], nd["g"]
+    if micro != 1:
+        if t not in MICRO_TAGS:
+            raise ValueError("micro documents hold straight-segment shapes and groups only")
+        if t in ("polygon", "polyline"):
+            return [("points", " ".join("%s,%s" % (num(g[i] / micro), num(g[i + 1] / micro))
+                                        for i in range(0, len(g), 2)))]
+        g = [x / micro if x >= 0 or t == "line" else x for x in g]
     if t == "rect":
         a = [("x", g[0]), ("y", g[1]), ("width", g[2]), ("height", g[3])]
         if g[4] >= 0:
@@ -125,16 +142,24 @@ def geom_attrs(nd):
             a.append(("overflow", g[6]))
     else:
         a = []
-    return [(n, str(v)) for n, v in a]
+    return [(n, num(v) if isinstance(v, float) else str(v)) for n, v in a]
 
 
 def concretise(doc, flags=()):
-    """ADoc -> SVG text.  flags: "ws" (inter-element whitespace), "xmldecl"."""
+    """ADoc -> SVG text.  flags: "ws" (inter-element whitespace), "xmldecl".
+    A document with "micro": k (a power of two) is written in user units k times smaller inside one
+    <g transform="scale(k)">: every length of the content (geometry, stroke-width, dashes) is divided by
+    k.  By SVG 1.1 7.4/11.4 a uniform scaling of user space scales strokes with it, so the document
+    MEANS what the same ADoc without "micro" means - that is what the TLA+ semantics evaluates - while
+    the implementation has to stroke in the small units and magnify."""
+    micro = doc.get("micro", 1)
     vb = doc.get("view", doc["vb"])
     foo = any(a[0].startswith("foo:") for nd in doc["nodes"] for a in nd["at"])
     out = ['<svg xmlns="%s" xmlns:xlink="%s"%s viewBox="%s"%s>' % (
         SVGNS, XLINK, ' xmlns:foo="http://example.com/foo"' if foo else "",
         " ".join(str(x) for x in vb), attrs_xml(doc.get("root", [])))]
+    if micro != 1:
+        out.append('<g transform="scale(%d)">' % micro)
     stack = []
     nodes = doc["nodes"]
     for i, nd in enumerate(nodes):
@@ -143,7 +168,7 @@ def concretise(doc, flags=()):
         extra = []
         if nd.get("id"):
             extra.append(("id", nd["id"]))
-        extra += geom_attrs(nd)
+        extra += geom_attrs(nd, micro)
         nxt = nodes[i + 1]["d"] if i + 1 < len(nodes) else 0
         tag = nd["tag"]
         txt = nd.get("text")
@@ -170,12 +195,14 @@ def concretise(doc, flags=()):
         elif tag in ("title", "desc"):
             txt = "some words"
         if nxt > nd["d"] or txt:
-            out.append("<%s%s>%s" % (tag, attrs_xml(nd["at"], extra), txt or ""))
+            out.append("<%s%s>%s" % (tag, attrs_xml(nd["at"], extra, micro), txt or ""))
             stack.append((nd["d"], tag))
         else:
-            out.append("<%s%s/>" % (tag, attrs_xml(nd["at"], extra)))
+            out.append("<%s%s/>" % (tag, attrs_xml(nd["at"], extra, micro)))
     while stack:
         out.append("</%s>" % stack.pop()[1])
+    if micro != 1:
+        out.append("</g>")
     out.append("</svg>")
     if "ws" in flags:
         # inter-element whitespace only: inside text content white space is character data, not noise
